@@ -38,13 +38,20 @@ func (app *App) internalAPI(topic string) {
 			if err == nil {
 				c.Hub.Broadcast <- hub.Message{Sender: *c, Data: reply, Type: websocket.TextMessage, Sent: time.Now()} //mmmm type needed here == too much coupling ...!!
 			} else {
-				c.Hub.Broadcast <- hub.Message{Sender: *c, Data: []byte(`{"error":"` + err.Error() + `"}`), Type: websocket.TextMessage, Sent: time.Now()}
+				c.Hub.Broadcast <- hub.Message{Sender: *c, Data: errorReply(err), Type: websocket.TextMessage, Sent: time.Now()}
 			}
 
 		case <-app.Closed:
 			return
 		}
 	}
+}
+
+// errorReply encodes an error as the JSON object {"error":"<text>"};
+// json.Marshal quotes whatever the text contains
+func errorReply(err error) []byte {
+	reply, _ := json.Marshal(map[string]string{"error": err.Error()})
+	return reply
 }
 
 // Command represents a command and associated rule
@@ -136,7 +143,7 @@ func (app *App) handleAdminMessage(msg []byte) ([]byte, error) {
 				default:
 					if cmd.Which != "apiRule" {
 						app.Websocket.Delete <- cmd.Which
-						reply = []byte(`{"deleted":"` + cmd.Which + `"}`)
+						reply, err = json.Marshal(map[string]string{"deleted": cmd.Which})
 					} else {
 						err = errNoDeleteAPIRule
 					}
@@ -174,7 +181,7 @@ func (app *App) handleAdminMessage(msg []byte) ([]byte, error) {
 					reply = []byte(`{"deleted":"deleteAll"}`)
 				default:
 					app.Hub.Delete <- cmd.Which
-					reply = []byte(`{"deleted":"` + cmd.Which + `"}`)
+					reply, err = json.Marshal(map[string]string{"deleted": cmd.Which})
 				}
 			case "list":
 				switch cmd.Which {
